@@ -3,6 +3,7 @@
    states the harness reports. -/
 import Drv.Util
 import Nq.QueueInject
+import Nq.Datetime
 
 open Nq Nq.QueueInject Drv
 
@@ -15,8 +16,14 @@ structure Case where
   intdFd : String := "?"
   ino : String := "?"
   pid : String := ""
+  clock : String := ""
   exit : Nat := 999
   fault : Bool := false
+  setup : Int := 0            -- the failure of an untraced library call the harness arranged (0: none)
+  faulty : Bool := false      -- a `Faulty` event occurred in the implementation's trace
+  sig : Option Sig := none    -- a caught signal was delivered
+  afterSig : List String := []  -- what the implementation did after the handler started
+  final : String := "?"       -- names of the entry after the exit
   nev : Nat := 0
   kinds : List String := []
 
@@ -30,11 +37,16 @@ def parseEv (c : Case) (toks : List String) : Option Ev × Case :=
   match toks with
   | ["T", _, "alarm", n] => (some (.alarm n.toNat!), c)
   | ["T", _, "exit", code] => (some (.exit code.toNat!), c)
+  | ["T", _, "signal", n] =>
+    -- SIGALRM -> sigalrm(); SIGILL, SIGABRT, SIGBUS, SIGFPE, SIGSEGV, SIGSYS -> sigbug() (sig_bugcatch)
+    if n == "14" then (some (.signal .alrm), c)
+    else if ["4", "6", "7", "8", "11", "31"].contains n then (some (.signal .bug), c)
+    else (none, c)
   | "T" :: _ :: _ :: "open_excl" :: path :: "->" :: r :: rest =>
     if path.startsWith "pid/" then
       let parts := path.splitOn "."
       let seq := (parts.getLast?.getD "0").toNat!
-      let good := path.startsWith ("pid/" ++ c.pid ++ ".")
+      let good := path == s!"pid/{c.pid}.{c.clock}.{seq}"     -- pidfmt(): pid/<pid>.<starttime>.<seq>
       if !good then (none, c) else
       (some (.openPid seq (r != "-1")), if r != "-1" then { c with messFd := r, ino := kvOf rest "ino" } else c)
     else if path == "intd/" ++ c.ino then
@@ -82,6 +94,23 @@ def evKind : Ev → String
   | .openIntd ok => if ok then "openIntd" else "openIntd!" | .linkTodo ok => if ok then "linkTodo" else "linkTodo!"
   | .ftrunc _ ok => (if ok then "ftrunc" else "ftrunc!") | .unlinkF _ ok => if ok then "unlinkF" else "unlinkF!" | .trigOpen ok => if ok then "trigOpen" else "trigOpen!"
   | .trigWrite => "trigWrite" | .trigClose => "trigClose" | .exit c => s!"exit{c}"
+  | .signal g => match g with | .alrm => "SIGALRM" | .bug => "SIGBUG"
+
+/-! the Received line qmail-queue.c documents (receivedfmt + date822fmt.c), computed from the uid, pid and clock the
+harness gave the process - independently of the program's own buffer; the calendar is `Nq.Datetime.tai`
+(proved against the civil calendar in C07) -/
+def two (n : Nat) : String := (if n < 10 then "0" else "") ++ toString n
+
+def date822 (t : Nat) : String :=
+  let d := Nq.Datetime.tai (Int.ofNat t)
+  let mon := ["Jan", "Feb", "Mar", "Apr", "May", "Jun", "Jul", "Aug", "Sep", "Oct", "Nov", "Dec"].getD d.mon.toNat "???"
+  s!"{d.mday.toNat} {mon} {d.year.toNat} {two d.hour.toNat}:{two d.min.toNat}:{two d.sec.toNat} -0000\n"
+
+/-- uids of the harness's passwd database: alias 7790, qmaild 7791, qmails 7796 -/
+def receivedDoc (uid pid : String) (clock : Nat) : Bytes :=
+  let who := if uid == "7790" then "by alias" else if uid == "7791" then "from network"
+             else if uid == "7796" then "for bounce" else "by uid " ++ uid
+  (s!"Received: (qmail {pid} invoked {who}); " ++ date822 clock).toUTF8.toList
 
 def hash16 (b : Bytes) : String :=
   let h := hashBytes b
@@ -104,7 +133,9 @@ def oracleState (c : Case) (k : Nat) (ncalls : Nat) (code : String) (toks : List
         if kvOf toks "mess" != s!"{expMess.length}:{hash16 expMess}" then some "todo visible with an incomplete or wrong message file"
         else if kvOf toks "todo" != s!"{expTodo.length}:{hash16 expTodo}" then some "todo visible with an incomplete or wrong envelope"
         else if kvOf toks "named" != "1" then some "file name differs from inode number"
-        else if final && c.exit != 0 then some "failure reported but the message is visible to the daemon"
+        else if kvOf toks "linked" != "1" then some "intd/<n> and todo/<n> are not the same inode"
+        -- C01_failure / C01_killed: only the signal handlers' codes may go with a (complete) visible entry
+        else if final && c.exit != 0 && c.exit != 52 && c.exit != 81 then some "failure reported but the message is visible to the daemon"
         else none
     else if final && c.exit == 0 then some "success reported but no todo entry is visible"
     else none
@@ -115,17 +146,43 @@ structure DState where
   ncalls : Nat := 0
   bad : Bool := false
 
-def finishCase (d : DState) : IO DState := do
-  let c := d.cur
-  let mut st := d.st
-  -- exit code vs the documented envelope verdict (no injected fault)
-  if !c.fault then
-    let sc := (scanDoc c.p.env).1
-    let want := match sc with | .done => 0 | .bad => 91 | .long => 11 | _ => 54
-    if c.exit != want then
-      IO.println s!"ORACLE {c.hdrline} exit={c.exit} documented={want}"
-      st := { st with oracle := st.oracle + 1 }
-  return { d with st := st }
+def oracleLine (d : DState) (why : String) : IO DState := do
+  IO.println s!"ORACLE {d.cur.hdrline} {why}"
+  return { d with st := { d.st with oracle := d.st.oracle + 1 } }
+
+def finishCase (d0 : DState) : IO DState := do
+  let c := d0.cur
+  let mut d := d0
+  -- C01_refusal: no `Faulty` event in the implementation's trace => the exit code is the documented verdict on the envelope
+  -- (EINTR, short writes, refused pid file names, failures inside cleanup() and of the trigger pull do not excuse it)
+  if !c.faulty && !d.bad then
+    let want := docCode (scanDoc c.p.env).1
+    if c.exit != want then d ← oracleLine d s!"exit={c.exit} documented={want}"
+    d := { d with st := d.st.bump "exit_code_judged" }
+  -- C01_handler_no_cleanup: after a caught signal nothing but _exit(52) / _exit(81)
+  match c.sig with
+  | some g =>
+    if c.afterSig != [s!"exit{sigCode g}"] then
+      d ← oracleLine d s!"after_signal={"+".intercalate c.afterSig} why=the_signal_handler_must_only_exit_{sigCode g}"
+    if c.exit != sigCode g then d ← oracleLine d s!"exit={c.exit} documented={sigCode g} why=signal_handler"
+    d := { d with st := d.st.bump (if g == .alrm then "sigalrm_runs" else "sigbug_runs") }
+  | none => pure ()
+  -- documented codes of the failures the trace does not show (qmail-queue.8: 61 chdir home, 62 chdir queue, 51 out of
+  -- memory, 81 internal bug) and what they leave: nothing before the pid file exists, the pid file afterwards
+  let expect : Option (Nat × String) :=
+    if c.setup == -31 then some (61, "-") else if c.setup == -32 then some (62, "-")
+    else if c.setup == -11 || c.setup == -12 then some (51, "-")
+    else if c.setup ≤ -13 && c.setup ≥ -15 then some (51, "p")
+    else if c.setup == -22 then some (81, "-")
+    else if c.setup ≤ -23 && c.setup ≥ -25 then some (81, "p")
+    else none
+  match expect with
+  | some (code, left) =>
+    if c.exit != code then d ← oracleLine d s!"exit={c.exit} documented={code} why=setup_failure_{c.setup}"
+    if c.final != left then d ← oracleLine d s!"final_state={c.final} expected={left} why=setup_failure_{c.setup}"
+    d := { d with st := d.st.bump "setup_failures" }
+  | none => pure ()
+  return d
 
 def handle (d : DState) (line : String) : IO DState := do
   let toks := fields line
@@ -136,8 +193,15 @@ def handle (d : DState) (line : String) : IO DState := do
     let r := (unhex (kvOf rest "received")).getD []
     let uid := kvOf rest "uid"
     let pid := kvOf rest "pid"
+    let clock := kvOf rest "clock"
     let hdr := [117] ++ uid.toUTF8.toList ++ [0, 112] ++ pid.toUTF8.toList ++ [0]
     let flt := kvOf rest "fault"
+    -- fault list: <call>:<err>+...; call 0 with err >= -1 is "no fault", call 0 with err <= -10 a set-up failure
+    let fl : List (Int × Int) := (flt.splitOn "+").filterMap (fun t => match t.splitOn ":" with
+      | [a, b] => match a.toInt?, b.toInt? with | some x, some y => some (x, y) | _, _ => none
+      | _ => none)
+    let setup : Int := ((fl.filter (fun t => t.1 == 0 && t.2 ≤ -10)).map (·.2)).headD 0
+    let faulted := fl.any (fun t => t.1 > 0) || setup != 0
     let hl := s!"chunk={kvOf rest "chunk"} msg={kvOf rest "msg"} env={kvOf rest "env"} fault={flt}"
     let h := hashBytes (m ++ [255] ++ e ++ flt.toUTF8.toList)
     let fresh := !d.st.seen.contains h
@@ -146,15 +210,21 @@ def handle (d : DState) (line : String) : IO DState := do
     if fresh && st.samples < 3 && m.length < 40 then IO.println s!"SAMPLE {hl}"
     let st := if fresh && st.samples < 3 && m.length < 40 then { st with samples := st.samples + 1 } else st
     -- input distribution of the fault space: faulted runs of inputs that fail by themselves, runs with several faults
-    let faulted := !flt.startsWith "0:"
     let st := if faulted && (scanDoc e).1 != .done then st.bump "faulted_malformed_input" else st
     let st := if flt.contains '+' then st.bump "multi_fault" else st
-    return { d with st := st, cur := { p := { msg := m, env := e, received := r, hdr := hdr }, hdrline := hl, pid := pid,
-                                        fault := !flt.startsWith "0:" }, bad := false }
+    -- the Received line: the documented format for this uid / pid / instant, not the program's buffer
+    let want := receivedDoc uid pid clock.toNat!
+    let st := st.bump ("received_" ++ (if uid == "7790" then "alias" else if uid == "7791" then "network" else if uid == "7796" then "bounce" else "uid"))
+    let cur : Case := { p := { msg := m, env := e, received := want, hdr := hdr }, hdrline := hl, pid := pid, clock := clock,
+                        fault := faulted, setup := setup }
+    let mut d := { d with st := st, cur := cur, bad := false, ncalls := 0 }
+    if kvOf rest "received" != "null" && r != want then
+      d ← oracleLine d s!"received={kvOf rest "received"} documented={hex want} why=Received_line_differs_from_the_documented_format"
+    return d
   | "T" :: _ =>
     if d.bad then return d
     let c := d.cur
-    if toks.contains "CRASH" || toks.contains "signal" then return d
+    if toks.contains "CRASH" || toks.contains "clockjump" then return d
     let (ev, c) := parseEv c toks
     match ev with
     | none =>
@@ -162,6 +232,9 @@ def handle (d : DState) (line : String) : IO DState := do
       return { d with st := { d.st with disagree := d.st.disagree + 1 }, cur := c, bad := true }
     | some ev =>
       let st := d.st.bump (evKind ev)
+      let c := { c with faulty := c.faulty || Faulty ev,
+                        afterSig := if c.sig.isSome then c.afterSig ++ [evKind ev] else c.afterSig,
+                        sig := match ev with | .signal g => (if c.sig.isSome then c.sig else some g) | _ => c.sig }
       match c.st with
       | none => return { d with cur := c, st := st }
       | some s =>
@@ -184,6 +257,7 @@ def handle (d : DState) (line : String) : IO DState := do
     return { d with cur := c, st := st, ncalls := (kvOf rest "ncalls").toNat! }
   | "S" :: k :: mode :: code :: rest =>
     let st := { d.st with counters := d.st.counters }
+    let d := if k.toNat! == d.ncalls + 1 then { d with cur := { d.cur with final := code } } else d
     match oracleState d.cur k.toNat! d.ncalls code rest with
     | none => return { d with st := (st.bump "crash_states") }
     | some why =>
